@@ -24,6 +24,7 @@ def load_event(s):
     e.failure = bool(data['failure'])
     e.notify = bool(data['notify'])
     e.channels = tuple(data['channels'])
+    hash(e.channels)  # TypeError for a list or an object as channel
 
     for k, v in dict(data['meta']).items():
         if k.startswith('__') or k in META_EXCLUDE:
